@@ -19,7 +19,7 @@ def register(w):
     w.contracts.pop((GM + "prepare", "BuckGophermapHandler"), None)
     w.contract(GM + "prepare", selfclass=["BuckGophermapHandler"], globals=GROOT,
                requires=FS, modifies=["self.*", MROOT],
-               raises={"OSError": True, "IndexError": True, "ValueError": True},
+               raises={"OSError": True},
                ghost={"open_files": "trace", "opened_paths": "trace"},
                use_lemmas=[("suffix-safe", {"s": "self.selector", "n": "'gophermap'"})],
                loops={0: dict(invariant=["rfile.pos <= len(rfile.content)", "0 <= rfile.pos", "len(ghost.open_files) == 1",
@@ -31,24 +31,23 @@ def register(w):
                        ("assert", "args[0] == ghost.a0 and args[1] == (ghost.a0[1:] if ghost.a1 == '' else ghost.a1) and len(args) == ghost.fields"),
                        ("assert", "implies(args[0][1:] != '', entry.name == args[0][1:])"),
                        ("assert", "implies(not (entry.host is None and entry.port is None), entry.name == args[0][1:])"),
-                       ("assert", "entry.selector == (%s if (%s[0] == '/' or %s[0:4] == 'URL:') else selectorbase + '/' + %s)" % (SEL0, SEL0, SEL0, SEL0)),
+                       ("assert", "entry.selector == (%s if (%s[0:1] == '/' or %s[0:4] == 'URL:') else selectorbase + '/' + %s)" % (SEL0, SEL0, SEL0, SEL0)),
+                       ("assert", "implies(len(args) >= 4 and len(args[3]) > 0 and not ascii_digits(args[3]), entry.port is None or entry.port == int(args[3]))"),
                        ("assert", "implies(len(args) >= 3 and len(args[2]) > 0, entry.host == args[2])"),
                        ("assert", "implies(not (len(args) >= 3 and len(args[2]) > 0), entry.host is None)"),
-                       ("assert", "implies(len(args) >= 4 and len(args[3]) > 0, entry.port == int(args[3]))"),
+                       ("assert", "implies(len(args) >= 4 and ascii_digits(args[3]), entry.port == int(args[3]))"),
                        ("assert", "implies(not (len(args) >= 4 and len(args[3]) > 0), entry.port is None)")],
                    "after:self.entries.append(gopherentry.getinfoentry(line, self.config))": [
                        ("assert", "%s.type == 'i' and %s.name == ghost.raw.strip() and %s.host == '(NULL)' and %s.port == 0 and %s.selector == 'fake'" % ((LAST,) * 5))],
                    "after:line = rfile.readline().decode(errors='surrogateescape')": [("ghost", "raw", "line")],
                    "after:args = [arg.strip() for arg in line.split('\\t')]": [("ghost", "fields", "len(args)"), ("ghost", "a0", "args[0]"), ("ghost", "a1", "args[1] if len(args) >= 2 else ''"), ("assert", "len(args) >= 2")]},
-               ensures=["len(ghost.open_files) == 0"], on_raise={"*": ["len(ghost.open_files) == 0"],
-                         "IndexError": ["ghost.a0 == '' or (ghost.a0[1:] == '' and ghost.a1 == '')"],
-                         "ValueError": ["ghost.fields >= 4"]},
+               ensures=["len(ghost.open_files) == 0"], on_raise={"*": ["len(ghost.open_files) == 0"]},
                opts={"assume_requires": ["S.safe_sel(selector)"], "assume_requires_why": "the selector comes from a gophermap line, i.e. served content, which is outside C01's quantifier (DESIGN 5/C01.7)",
                      "must_hit": ["after:self.entries.append(entry)", "after:self.entries.append(gopherentry.getinfoentry(line, self.config))"]},
                note="one entry per gophermap line, in file order: a line without a TAB is informational text (type i, fake selector, (NULL) host); otherwise the first character "
                     "is the type and the rest of the first field the description, a missing selector defaults to the description, a relative selector is resolved against the "
-                    "directory, a missing host/port is None (= this server in every renderer). IndexError/ValueError are declared for malformed lines only "
-                    "(empty first field; empty description and selector; non-numeric port) - the weakest well-formedness condition, found by the implicit index obligations.",
+                    "directory, a missing host/port is None (= this server in every renderer). Only OSError is declared, for ANY content of the gophermap: a TAB line without an item type is shown as text, an unparsable port is ignored "
+                    "(repaired defect: such lines used to raise IndexError / ValueError, which an earlier session had declared in this contract).",
                props=["C09", "C01", "C03", "C05"])
     w.contract("pygopherd/gopherentry.py::getinfoentry", params={"text": "str", "config": "obj:Config"}, modifies=[], raises={}, returns="obj:GopherEntry",
                ensures=["result.type == 'i'", "result.name == text", "result.host == '(NULL)'", "result.port == 0", "result.selector == 'fake'"],
